@@ -6,9 +6,9 @@ import AdaptixProofs.Lemmas.CoerceFuel
 
 namespace Adaptix.Conv
 
-theorem planFields_unlinked {rec : Ty → Ty → Answer} {policy : Policy} {sfs : List Field} {d : Field}
+theorem planFields_unlinked {rec : Ty → Ty → Answer} {policy : Field → Bool} {sfs : List Field} {d : Field}
     (hnone : ∀ s ∈ sfs, s.name ≠ d.name)
-    (hforbid : d.required = true ∨ policy.allowed d.name = false) :
+    (hforbid : d.required = true ∨ policy d = false) :
     ∀ ds, d ∈ ds → ∀ plan, planFields rec policy sfs ds ≠ some (some plan)
   | [], hd, _ => by cases hd
   | x :: ds, hd, plan => by
@@ -51,7 +51,7 @@ theorem model_first_refuses {cfg : Cfg} {rest : List Prov} (hrecipe : cfg.recipe
     {sc dc : Nat} {sa da : List Ty} {sfs dfs : List Field}
     (hss : cfg.shape sc sa = some sfs) (hds : cfg.shape dc da = some dfs)
     {d : Field} (hd : d ∈ dfs) (hnone : ∀ s ∈ sfs, s.name ≠ d.name)
-    (hforbid : d.required = true ∨ cfg.policy.allowed d.name = false) :
+    (hforbid : d.required = true ∨ cfg.policy.allowed dc d = false) :
     ∀ n c, provide cfg n (.cls sc sa) (.cls dc da) ≠ .ok c
   | 0, c => by simp [provide]
   | n + 1, c => by
@@ -60,7 +60,7 @@ theorem model_first_refuses {cfg : Cfg} {rest : List Prov} (hrecipe : cfg.recipe
     unfold runRecipe
     simp only [step, stepModel, hss, hds]
     have := planFields_unlinked (rec := provide cfg n) hnone hforbid dfs hd
-    cases hp : planFields (provide cfg n) cfg.policy sfs dfs with
+    cases hp : planFields (provide cfg n) (cfg.policy.allowed dc) sfs dfs with
     | none => simp
     | some r =>
       cases r with
